@@ -505,6 +505,9 @@ func verifModelBinaryWrite(w io.Writer, order binary.ByteOrder, data any) error 
 
 //@ func (*SegmentBase).visitStoredFields returns (err)
 //@ thin
+// a visit fails only when the meta stream or the compressed block cannot be decoded (a stored value - empty ones at the
+// very end of the block included - is never rejected for its position)
+//@ failsonly err from encoding/binary.ReadUvarint, github.com/golang/snappy.Decode [C02,C05]
 //@ tags [C02,C11]
 //@ requires s != nil && vdc != nil && poolOwned(vdc)
 //@ ghostinit $visStopped = false
@@ -1231,6 +1234,8 @@ func lemmaUvLenRange(a []byte, o int) {}
 //@ pred capZero(c) = forall j int :: {row(c.chunkLens)[off(c.chunkLens) + j]} len(c.chunkLens) <= j && j < cap(c.chunkLens) ==> row(c.chunkLens)[off(c.chunkLens) + j] == 0
 //@ pred lensZero(c) = forall j int :: 0 <= j && j < len(c.chunkLens) ==> c.chunkLens[j] == 0
 //@ pred coderOK(c) = c != nil && c.chunkSize >= 1 && len(c.chunkLens) >= 1 && base(c.chunkLens) != nil && len(c.chunkBuf.buf) >= c.chunkBuf.off && c.chunkBuf.off >= 0 && capZero(c) && coderMaxDoc(c) >= 0 && len(c.chunkLens) == coderMaxDoc(c) / int(c.chunkSize) + 1
+// the same without the zeroed spare capacity (all that writing the finished streams needs)
+//@ pred coderShape(c) = c != nil && c.chunkSize >= 1 && len(c.chunkLens) >= 1 && base(c.chunkLens) != nil && len(c.chunkBuf.buf) >= c.chunkBuf.off && c.chunkBuf.off >= 0 && coderMaxDoc(c) >= 0 && len(c.chunkLens) == coderMaxDoc(c) / int(c.chunkSize) + 1
 
 //@ func newChunkedIntCoder returns (rv)
 //@ tags [C01,C06,C09]
@@ -1330,7 +1335,7 @@ func lemmaUvLenRange(a []byte, o int) {}
 // header size of the chunked stream: uvarint(#chunks) followed by one uvarint per chunk end offset
 //@ func (*chunkedIntCoder).Write returns (tw, err)
 //@ tags [C01,C09,C17]
-//@ requires coderOK(c) && w != nil && len(c.chunkLens) <= 0x03ffffffffffffff
+//@ requires coderShape(c) && w != nil && len(c.chunkLens) <= 0x03ffffffffffffff
 //@ wf requires writerOK(w)
 //@ propagates err from io.Writer.Write, (*CountHashWriter).Write [C17]
 //@ ensures err == nil ==> tw == uvSize(uint64(len(c.chunkLens))) + uvTotal(row(c.chunkLens), off(c.chunkLens), len(c.chunkLens)) + len(c.final) [C01,C09]
@@ -1361,6 +1366,8 @@ func lemmaUvLenRange(a []byte, o int) {}
 // the pass that sizes a hit's location block and the pass that writes it walk the same window of the term's location
 // list (numLocs entries from locOffset) and describe entry k by the same five numbers and array positions
 //@ assert totalUvarintBytes#1 : 0 <= $k && $k < freqNorm.numLocs && $a == uint64(locs[locOffset + $k].fieldID) && $b == locs[locOffset + $k].pos && $c == locs[locOffset + $k].start && $d == locs[locOffset + $k].end && int($e) == len(locs[locOffset + $k].arrayposs) && len($more) == len(locs[locOffset + $k].arrayposs) [C01,C09]
+// every field of the build gets its section address recorded in the same build
+//@ loop 1 step haskey(io.fieldAddrs, fieldID) && mapget(io.fieldAddrs, fieldID) == fieldStart [C01,C09,C10]
 // per posting of a term: the next freq/norm entry is consumed, and its numLocs location entries
 //@ loop 4 step 0 <= prev(freqNormOffset) && prev(freqNormOffset) < 0x3fffffffffffffff && 0 <= prev(locOffset) && prev(locOffset) < 0x3fffffffffffffff && freqNorm.numLocs < 0x3fffffffffffffff ==> freqNormOffset == prev(freqNormOffset) + 1 && locOffset == prev(locOffset) + ite(freqNorm.numLocs > 0, freqNorm.numLocs, 0) [C01,C09]
 //@ loop 4 step 0 <= prev(freqNormOffset) && prev(freqNormOffset) < len(freqNorms) ==> freqNorm.freq == freqNorms[prev(freqNormOffset)].freq && freqNorm.numLocs == freqNorms[prev(freqNormOffset)].numLocs && freqNorm.norm == freqNorms[prev(freqNormOffset)].norm [C01,C09]
@@ -1420,6 +1427,71 @@ func lemmaUvLenRange(a []byte, o int) {}
 //@ thin
 //@ tags [C06,C08,C13]
 //@ assert (*enumerator).updateMatches#1 : !$skipEmptyKey [C06,C08,C13]
+//@ end
+
+// ---- C01 / C06 / C09: a term's postings block ----
+// layout: the two chunked streams first, then - at the offset that goes into the dictionary - the offsets of the two
+// streams and the length-prefixed bitmap; an empty list writes nothing and has offset 0
+//@ func writePostings returns (offset, err)
+//@ thin
+//@ tags [C01,C06,C09]
+//@ wf requires w != nil && tfEncoder != nil && locEncoder != nil
+//@ wf requires tfEncoder != locEncoder && coderShape(tfEncoder) && coderShape(locEncoder) && len(tfEncoder.chunkLens) <= 0x03ffffffffffffff && len(locEncoder.chunkLens) <= 0x03ffffffffffffff
+//@ assert (*chunkedIntCoder).writeAt#1 : $c == tfEncoder [C01,C06,C09]
+//@ assert (*chunkedIntCoder).writeAt#2 : $c == locEncoder [C01,C06,C09]
+//@ assert encoding/binary.PutUvarint#1 : $x == tfOffset && postingsOffset == uint64(w.n) [C01,C06,C09]
+//@ assert encoding/binary.PutUvarint#2 : $x == locOffset [C01,C06,C09]
+//@ assert writeRoaringWithLen#1 : $r == postings [C01,C06,C09]
+//@ ensures postings == nil ==> offset == 0 && err == nil [C01,C06,C09]
+//@ propagates err from (*chunkedIntCoder).writeAt, (*CountHashWriter).Write, writeRoaringWithLen [C17]
+//@ end
+
+// the single-hit decision callback only inspects the collected term (assumed about the callers' closure - the one
+// closure passed in, mergeAndPersistInvertedSection$1, reads the bitmap's minimum and the location coder's size)
+//@ func writePostings.use1HitEncoding(card) returns (ok, docNum, normBits)
+//@ trusted
+//@ modifies nothing
+//@ end
+
+//@ func writeRoaringWithLen returns (tw, err)
+//@ thin
+//@ tags [C01,C06,C09]
+//@ assert encoding/binary.PutUvarint#1 : int($x) == len(buf) && base($buf) == base(reuseBufVarint) [C01,C06,C09]
+//@ assert io.Writer.Write#1 : len($p) == n && base($p) == base(reuseBufVarint) && off($p) == off(reuseBufVarint) [C01,C06,C09]
+//@ assert io.Writer.Write#2 : len($p) == len(buf) && base($p) == base(buf) && off($p) == off(buf) [C01,C06,C09]
+//@ propagates err from (*roaring/v2.Bitmap).ToBytes, io.Writer.Write [C17]
+//@ end
+
+// counting pass of the synonym builder: every synonym of every definition has an id in its thesaurus when the pass
+// is over (the fill pass looks ids up in the same table and a missing one would silently read as id 0)
+//@ func (*synonymIndexOpaque).realloc$2$1
+//@ thin
+//@ tags [C12]
+//@ loop 1 step haskey(termSynMap, syn) [C12]
+//@ end
+
+// fill pass of the synonym builder: each synonym of a definition is recorded, under the id the counting pass gave it in
+// this thesaurus, for this document, in the postings of the definition's own term
+//@ func (*synonymIndexOpaque).process$1
+//@ thin
+//@ tags [C12]
+//@ assert encodeSynonym#1 : $synonymID == mapget(termSynMap, syn) && $docID == docNum [C12]
+//@ assert (*roaring/v2/roaring64.Bitmap).Add#1 : $x == code && pid == uint64(mapget(thesaurus, term) - 1) && (0 <= int(pid) && int(pid) < len(so.Synonyms) ==> $rb == so.Synonyms[int(pid)]) [C12]
+//@ end
+
+// every thesaurus of the build gets its section address recorded in the same build (the address table is never reset,
+// so an entry that is not overwritten would be a trace of an earlier build); the trailer of a thesaurus section is the
+// two "no doc values" markers followed by the offset of its FST
+//@ func (*synonymIndexOpaque).writeThesauri returns (thesOffsets, err)
+//@ thin
+//@ tags [C10,C12]
+//@ loop 1 step haskey(so.thesaurusAddrs, thesaurusID) && mapget(so.thesaurusAddrs, thesaurusID) == thesaurusStart [C10,C12]
+//@ assert encoding/binary.PutUvarint#1 : int($x) == len(vellumData) [C09,C12]
+//@ assert encoding/binary.PutUvarint#2 : $x == fieldNotUninverted [C09,C12]
+//@ assert encoding/binary.PutUvarint#3 : $x == fieldNotUninverted [C09,C12]
+//@ assert encoding/binary.PutUvarint#4 : $x == thesOffsets[thesaurusID] [C09,C12]
+//@ assert writeSynTermMap#1 : $synTermMap == so.SynonymIDtoTerm[thesaurusID] [C09,C12]
+//@ propagates err from writeSynonyms, writeSynTermMap, (*CountHashWriter).Write, (*vellum.Builder).Insert, (*vellum.Builder).Close [C17]
 //@ end
 
 // ---- C12: thesaurus lookups ----
@@ -1700,6 +1772,14 @@ func lemmaSynonymCodeRoundTrip(synonymID, docID uint32) {
 //@ thin
 //@ tags [C03,C04]
 //@ loop 1 early err != nil [C03,C04]
+//@ end
+
+// the reader's convention: a field record "at offset 0" stands for "no record" (this is what finding F4b is about; the
+// empty segment's only field relies on it: its emptiness guard in DocNumbers is len(fieldsMap) == 0)
+//@ func (*SegmentBase).loadFieldNew returns (err)
+//@ thin
+//@ tags [C02,C04]
+//@ ensures pos == 0 ==> err == nil && len(s.fieldsInv) == old(len(s.fieldsInv)) [C02,C04]
 //@ end
 
 // ---- C03: doc values ----
